@@ -65,7 +65,7 @@ def explore(system, ck, mode="tree", max_depth=3, max_states=None):
             for (node, letter, m2, sops, sexp, pops, pexp), o, case in zip(chunk, obs, cases):
                 if failed_any:
                     # do not expand histories on which the implementation already deviated from the model
-                    if o == ["CRASH"] or any(not admits(e, x) for e, x in zip(case[1], o)):
+                    if o in (["CRASH"], ["HANG"]) or any(not admits(e, x) for e, x in zip(case[1], o)):
                         continue
                 n2 = Node(m2, node.ops + sops, node.exp + sexp, depth, node.letters + (letter,))
                 if mode == "graph":
